@@ -1386,7 +1386,8 @@ func (g *lsGen) emitTable(b *strings.Builder, name string, t lsTable) {
 }
 
 var lsTMethods = []string{"Helper", "Name", "Log", "Logf", "Error", "Errorf", "Fail", "Failed", "Context", "Cleanup",
-	"Skip", "Skipf", "SkipNow", "Fatal", "Fatalf", "FailNow", "fail", "failOnError", "failedError", "cleanup", "shouldLog"}
+	"Skip", "Skipf", "SkipNow", "Fatal", "Fatalf", "FailNow", "fail", "failOnError", "failedError", "cleanup", "shouldLog",
+	"runCleanup", "skippedError", "skip"} // the last three exist since the repairs eb62ae0 / b8a46e7 / 5d6bc10 (absent methods are skipped)
 
 var lsGMethods = []string{"String", "value", "Draw", "Example", "Filter", "AsAny"}
 
